@@ -91,3 +91,21 @@ Example C04_example_layouts :
 Proof. vm_compute. repeat split; reflexivity. Qed.
 Goal True. idtac "ASSUMPTIONS-OF C04_example_layouts". Abort.
 Print Assumptions C04_example_layouts.
+
+(* A statement continued over any number of lines with comment lines and empty lines ANYWHERE between
+   them is delivered as one item: the joined pieces, label, construct name, the exact span; the
+   comments are queued in source order, each with its own line number, and come right after the
+   statement.  Any number of pieces, comments and empty lines in any order. *)
+From FV Require Import ReaderFile.
+Theorem C04_continued_statement_with_comments_between_its_lines_partial :
+  forall ign line lab l1 nm p1 es bn pn src lc,
+    stripped line -> line <> [] -> starts_with ["#"%char] (lstrip line) = false ->
+    extract_label line = (lab, l1) -> extract_construct_name l1 = (nm, p1 ++ ["&"%char]) ->
+    plain p1 -> Forall egood es -> blanks bn -> plain pn -> pn <> [] -> negb (is_blank pn) = true ->
+    stripped (last_line bn pn) -> strip (p1 ++ etext es ++ pn) <> [] ->
+    get_source_item (ReaderJoin.st ign (line :: map phys_e es ++ last_line bn pn :: src) lc [])
+    = (Some (RLine (strip (p1 ++ etext es ++ pn)) lab nm (S lc) (S (S lc) + List.length es)),
+       ReaderJoin.st ign src (S (S lc) + List.length es) (ecoms es (S (S lc)))).
+Proof. exact gsi_contc. Qed.
+Goal True. idtac "ASSUMPTIONS-OF C04_continued_statement_with_comments_between_its_lines_partial". Abort.
+Print Assumptions C04_continued_statement_with_comments_between_its_lines_partial.
